@@ -85,3 +85,12 @@ claim("C14", "PBT (rapid) with harness-owned completion schedules: generated sel
       "Generated-input search in which the harness owns the completion order of all asynchronous calls (arrival, reversed, random permutations); counters are read the moment Exec returns; held on everything explored. Goroutine schedules beyond the completion order are sampled, not enumerated.",
       "No LIMIT/OFFSET; ONCE with constant arguments; failing ASYNC functions are C10's domain.",
       "DESIGN.md 4/C14")
+
+claim("C10", "PBT (rapid) in a child process: grammar-valid queries x all 2^3 option sets, token mutations, byte strings, 125 hostile constants (also mutated), injected failing/panicking functions under every execution strategy at a generated invocation index, cyclic-format class; monitors = child exit status, Go fatal messages, confirmed watchdog; native go fuzz (thorough)",
+      "Generated-input search: every case runs in a worker process that must answer ok or error and stay alive; deaths are confirmed in a fresh child, timeouts in three fresh children; held on everything explored. 'Never hangs' is only refutable.",
+      "A returned error is always acceptable; crashes inside the third-party SQL parser would be reported too.",
+      "DESIGN.md 4/C10")
+claim("C13", "PBT (rapid) over concurrent batches executed in a child process built with the Go race detector: 2-8 goroutines behind a barrier, fresh/warm selector texts, separate/shared documents, internal parallelism, GOMAXPROCS in {1,2,4,16}; oracle = no race report/fatal error/hang + every result equals the same query run alone",
+      "Generated batches of concurrent queries under the race detector; results are compared with sequential re-execution; interleavings are sampled through repetition, goroutine count and GOMAXPROCS, not enumerated; held on everything explored.",
+      "The harness does not own the Go scheduler; a race on a path no batch executes, or an atomicity bug without a data race that needs one rare interleaving, can be missed.",
+      "DESIGN.md 4/C13")
